@@ -189,6 +189,7 @@ func (t Target) Coq() string {
 // vocab is what a document offers to aim targets at.
 type vocab struct {
 	paths  [][]NT      // name chains of all elements (root..node)
+	facts  [][]*PExp   // per path: atomic predicates that hold of that element
 	names  []NT        // element names seen
 	attrs  [][2]string // attribute names seen
 	values []string    // text / attribute / scalar values seen
@@ -270,8 +271,13 @@ func genTarget(r *vh.Rng, v *vocab, maxFilters int, allowRoot bool) Target {
 	if allowRoot && r.Chance(0.04) {
 		return t // "."
 	}
+	var facts []*PExp
 	if len(v.paths) > 0 && !r.Chance(0.1) {
-		p := v.paths[r.Pick(len(v.paths))]
+		pi := r.Pick(len(v.paths))
+		p := v.paths[pi]
+		if pi < len(v.facts) {
+			facts = v.facts[pi]
+		}
 		desc := false
 		for i, n := range p {
 			last := i == len(p)-1
@@ -302,6 +308,18 @@ func genTarget(r *vh.Rng, v *vocab, maxFilters int, allowRoot bool) Target {
 		nf = r.Between(1, maxFilters)
 	}
 	for i := 0; i < nf; i++ {
+		// most of the time a predicate that holds of the element aimed at, so that siblings
+		// with the same path are told apart by it (rejected and accepted candidates mix)
+		if len(facts) > 0 && r.Chance(0.6) {
+			f := facts[r.Pick(len(facts))]
+			if r.Chance(0.2) {
+				f = &PExp{Op: "and", P: f, Q: genPExp(r, v, 1)}
+			} else if r.Chance(0.1) {
+				f = &PExp{Op: "not", P: &PExp{Op: "not", P: f}}
+			}
+			t.Filters = append(t.Filters, f)
+			continue
+		}
 		t.Filters = append(t.Filters, genPExp(r, v, 0))
 	}
 	return t
